@@ -1,8 +1,8 @@
 #!/bin/bash
 # tools/pull.sh C10 : copy a builder's own files (everything except shared files) into /verif
-P=$1; W=/tmp/w$P/verif
+P=$1; W=${2:-/tmp/w$P}/verif   # optional second argument: the builder's directory
 lc=$(echo $P | tr A-Z a-z)
-for f in $(/verif/tools/integrate.sh $P | grep -v -E '^(MANIFEST.json|known_findings.json|harness/run.py|harness/common.py|harness/BUILDING.md|check|tools/(mk_manifest.py|agent_prompt.py|seed_prompt.py|integrate.sh|pull.sh|lk|try_seed.sh|keep_seed.sh|gen_periodic.py)|harness/c05.py|DESIGN.md|\.gitignore)'); do
+for f in $(/verif/tools/integrate.sh $P ${2:-/tmp/w$P} | grep -v -E '^(MANIFEST.json|known_findings.json|harness/run.py|harness/common.py|harness/BUILDING.md|check|tools/(mk_manifest.py|agent_prompt.py|seed_prompt.py|integrate.sh|pull.sh|lk|try_seed.sh|keep_seed.sh|gen_periodic.py)|harness/c05.py|DESIGN.md|\.gitignore)'); do
   # only files that are new, or that belong to this property by name: a builder's copy holds OLD versions of
   # every other file, and copying those back would revert later work
   if [ -e /verif/$f ] && ! echo "$f" | grep -qi -E "$P|$lc"; then echo "SKIPPED (exists, not $P's): $f"; continue; fi
